@@ -114,6 +114,16 @@ func (p *Program) CallersOf(target *ssa.Function) []CallSite {
 		if e.Site == nil {
 			continue
 		}
+		if cf := e.Caller.Func; cf != nil {
+			// the body of a generic function as written is not what runs: its instances are (and are listed)
+			g := cf
+			for g.Parent() != nil {
+				g = g.Parent()
+			}
+			if g.TypeParams() != nil && g.TypeParams().Len() > 0 && len(g.TypeArgs()) == 0 {
+				continue
+			}
+		}
 		out = append(out, CallSite{Caller: e.Caller.Func, Instr: e.Site, Callee: target})
 	}
 	sort.Slice(out, func(i, j int) bool {
@@ -617,6 +627,9 @@ func isPrivateHelper(fn *ssa.Function) bool {
 		return false
 	}
 	o := fn.Object()
+	if o == nil && fn.Origin() != nil {
+		o = fn.Origin().Object() // an instance of a generic helper
+	}
 	return o != nil && !o.Exported()
 }
 
@@ -1098,7 +1111,8 @@ func scopesOf(f *ssa.Function) []Scope {
 								h, mc = lf, lit
 							}
 						case *ssa.Function:
-							if lit.Parent() != nil {
+							// a function literal without captures, or a named go-nfsd function handed down as the body
+							if lit.Parent() != nil || (IsRepoFunc(lit) && lit.Blocks != nil) {
 								h = lit
 							}
 						}
